@@ -1,7 +1,7 @@
 (* C15 -- HTML escaping neutralises all markup; URL and base64url codecs are exact inverses.
    This file holds only the property theorems, each closed by `exact <lemma>`; the proofs are in
    Proofs.v (model) and Link.v (generated-from-source leaf functions = model leaf functions). *)
-From CppcmsV Require Import Base.Tac Base.CSem Base.Sweep C15.Defs C15.Proofs C15.ProofsUrl C15.ProofsB64 C15.ProofsFilter C15.ProofsSink C15.ProofsForm
+From CppcmsV Require Import Base.Tac Base.CSem Base.Sweep C15.Defs C15.Proofs C15.ProofsUrl C15.ProofsB64 C15.ProofsFilter C15.ProofsSink C15.ProofsGSink C15.ProofsForm
   C15.Link C15.LinkLoops gen.Gen_util gen.Gen_b64 gen.Gen_c15x.
 Local Open Scope N_scope.
 
@@ -309,3 +309,71 @@ Print Assumptions widget_markup_independent_of_value.
 Example widget_rendering_nonvacuous :
   render_full 0 1 [34; 62] <> None /\ render_full 16 2 [60] <> render_full 16 2 [] /\ render_supported 17 = true.
 Proof. split; [vm_compute; discriminate|split; [vm_compute; discriminate|reflexivity]]. Qed.
+
+(* 12. sinks whose failure is NOT permanent: acc is an ARBITRARY accept-function of (call index, bytes in the sink so far,
+       request).  For util::escape(b,e,streambuf&), util::urlencode(b,e,streambuf&) and the template filters: success
+       reported -> the sink holds exactly the whole converted text; failure reported -> the sink holds the requests
+       accepted before the first refused one (and the accepted part of that one), nothing after it. *)
+Theorem write_calls_success : forall acc reqs idx sink i' s',
+  calls_gs acc idx sink reqs = (i', s', true) -> s' = sink ++ concat reqs /\ i' = (idx + length reqs)%nat.
+Proof. exact calls_gs_ok. Qed.
+Theorem write_calls_stop_at_first_refusal : forall acc reqs idx sink i' s',
+  calls_gs acc idx sink reqs = (i', s', false) ->
+  exists pre q post k, reqs = pre ++ q :: post /\ (k < length q)%nat /\ s' = sink ++ concat pre ++ firstn k q /\
+                       i' = (idx + length pre + 1)%nat.
+Proof. exact calls_gs_fail. Qed.
+Print Assumptions write_calls_stop_at_first_refusal.
+Theorem escape_any_sink_success_is_whole : forall acc s o, escape_gs acc s = (o, true) -> o = escape s.
+Proof. exact escape_gs_ok. Qed.
+Theorem escape_any_sink_failure_is_call_prefix : forall acc s o, escape_gs acc s = (o, false) ->
+  exists done c rest k, s = done ++ c :: rest /\ (k < length (esc1 c))%nat /\ o = escape done ++ firstn k (esc1 c).
+Proof. exact escape_gs_fail. Qed.
+Theorem escape_any_sink_prefix : forall acc s, exists rest,
+  escape s = fst (escape_gs acc s) ++ rest /\ (snd (escape_gs acc s) = true -> rest = []) /\
+  (snd (escape_gs acc s) = false -> rest <> []).
+Proof. exact escape_gs_prefix. Qed.
+Theorem urlencode_any_sink_success_is_whole : forall acc s o, urlencode_gs acc s = (o, true) -> o = urlencode s.
+Proof. exact urlencode_gs_ok. Qed.
+Theorem urlencode_any_sink_failure_is_strict_prefix : forall acc s o, urlencode_gs acc s = (o, false) ->
+  exists j, (j < length (urlencode s))%nat /\ o = firstn j (urlencode s).
+Proof. exact urlencode_gs_fail. Qed.
+Print Assumptions urlencode_any_sink_failure_is_strict_prefix.
+(* the permanent sink of groups 1 and 10 is the instance acc = room - len *)
+Theorem bounded_sink_is_an_instance : forall room s, escape_gs (acc_of (SBounded room)) s = escape_stream room s.
+Proof. exact escape_gs_bounded. Qed.
+(* template filters, value in any pieces, any sink, any additive request function R (escape, urlencode) *)
+Theorem filter_any_sink_success_is_whole : forall acc (R : list N -> list (list N)),
+  (forall a b, R (a ++ b) = R a ++ R b) ->
+  forall pieces sink rel, fbg_run acc R pieces = (sink, true, rel) -> sink = concat (R (concat pieces)).
+Proof. exact fbg_run_ok. Qed.
+Theorem filter_escape_any_sink_success : forall acc pieces sink rel,
+  fbg_run acc R_escape pieces = (sink, true, rel) -> sink = escape (concat pieces).
+Proof. exact filter_escape_gs_ok. Qed.
+Theorem filter_urlencode_any_sink_success : forall acc pieces sink rel,
+  fbg_run acc R_urlencode pieces = (sink, true, rel) -> sink = urlencode (concat pieces).
+Proof. exact filter_urlencode_gs_ok. Qed.
+(* failure through a filter: the sink holds EXACTLY the requests accepted before the first refused one (and the accepted part
+   of that one), nothing after it, and release() reports the failure - for values of any length, in any pieces, any sink
+   (since /repo 4925ae6; before, release() converted the put area a second time and the statement was refuted) *)
+Theorem filter_any_sink_failure_is_call_prefix : forall acc (R : list N -> list (list N)),
+  (forall a b, R (a ++ b) = R a ++ R b) ->
+  forall pieces sink rel, fbg_run acc R pieces = (sink, false, rel) ->
+  call_prefix (R (concat pieces)) sink /\ rel = false.
+Proof. exact fbg_run_fail. Qed.
+Print Assumptions filter_any_sink_failure_is_call_prefix.
+Theorem filter_escape_any_sink_failure : forall acc pieces sink rel, fbg_run acc R_escape pieces = (sink, false, rel) ->
+  exists done c rest k, concat pieces = done ++ c :: rest /\ (k < length (esc1 c))%nat /\
+                        sink = escape done ++ firstn k (esc1 c).
+Proof. exact filter_escape_gs_fail. Qed.
+Theorem filter_any_sink_status_flags_agree : forall acc R pieces sink st rel, fbg_run acc R pieces = (sink, st, rel) -> st = rel.
+Proof. exact fbg_run_flags. Qed.
+(* the witness of the former refutation, now with the correct result (also corpus/C15/regress.case, docs/C15_finding_3.case):
+   140 bytes into a sink that refuses call number 100 once: exactly the first 100 bytes, failure, release() says -1 *)
+Example filter_no_redelivery_regression :
+  fbg_run (acc_of (SKthFails 100)) R_escape [map (fun n => N.of_nat n + 65) (seq 0 140)]
+  = (map (fun n => N.of_nat n + 65) (seq 0 100), false, false).
+Proof. exact filter_gs_no_redelivery_example. Qed.
+(* the input of the second-round seeded change: ab<c into an all-or-nothing sink with room for 3 bytes: the entity is
+   refused, escape stops and reports failure (a version that goes on delivers abc and reports success) *)
+Example nonpermanent_sink_nonvacuous : escape_gs (acc_of (SAllOrNothing 3)) [97;98;60;99] = ([97;98], false).
+Proof. exact escape_gs_all_or_nothing_example. Qed.
